@@ -64,7 +64,7 @@ impl rustc_driver::Callbacks for Cb {
     }
 }
 
-fn main() {
+fn main() -> std::process::ExitCode {
     let mut args: Vec<String> = std::env::args().collect();
     // wrapper mode: argv[1] is the path of the real rustc
     if args.len() > 1 && (args[1].ends_with("rustc") || args[1].contains("/rustc")) {
@@ -72,7 +72,7 @@ fn main() {
     }
     rustc_driver::catch_with_exit_code(|| {
         rustc_driver::run_compiler(&args, &mut Cb);
-    });
+    })
 }
 
 struct Dumper<'tcx> {
